@@ -663,4 +663,472 @@ theorem nonEmptySubsets_eq (l : List α) : nonEmptySubsets l = .ok (subsetsL l 1
   subsets_neg_one l 1
 
 
+/-! ### MFL statement classes -/
+
+theorem mem_dedup {α : Type} [BEq α] [LawfulBEq α] (x : α) (l : List α) : x ∈ dedup l ↔ x ∈ l := by
+  induction l with
+  | nil => simp [dedup]
+  | cons y ys ih =>
+    simp only [dedup, List.mem_cons, List.mem_filter, ih]
+    constructor
+    · rintro (h | ⟨h, _⟩)
+      · exact Or.inl h
+      · exact Or.inr h
+    · rintro (h | h)
+      · exact Or.inl h
+      · by_cases hxy : x = y
+        · exact Or.inl hxy
+        · exact Or.inr ⟨h, by simpa using hxy⟩
+
+theorem dedup_nodup {α : Type} [BEq α] [LawfulBEq α] (l : List α) : (dedup l).Nodup := by
+  induction l with
+  | nil => simp [dedup]
+  | cons y ys ih =>
+    simp only [dedup, List.nodup_cons, List.mem_filter]
+    refine ⟨by simp, ih.sublist List.filter_sublist⟩
+
+/-- `Cls.__add__` on explicit mode tuples is set union. -/
+theorem modesAdd_names (k : ModeKind) (a b : List String) :
+    ∃ r, modesAdd k (.names a) (.names b) = .ok (.names r) ∧ ∀ x, x ∈ r ↔ x ∈ a ∨ x ∈ b := by
+  by_cases hb : b.isEmpty = true
+  · have : b = [] := by simpa using hb
+    subst this
+    refine ⟨if k.addDedup then dedup a else a, ?_, ?_⟩
+    · simp [modesAdd, Modes.isWild, Modes.iter, filterNotIn, bind, Except.bind]
+    · intro x; by_cases h : k.addDedup <;> simp [h, mem_dedup]
+  · refine ⟨if k.addDedup then dedup (a ++ b.filter (fun y => !a.contains y)) else a ++ b.filter (fun y => !a.contains y), ?_, ?_⟩
+    · simp [modesAdd, Modes.isWild, Modes.iter, filterNotIn, hb, bind, Except.bind]
+    · intro x
+      have : x ∈ a ++ b.filter (fun y => !a.contains y) ↔ x ∈ a ∨ x ∈ b := by
+        simp only [List.mem_append, List.mem_filter]
+        constructor
+        · rintro (h | ⟨h, _⟩); exact Or.inl h; exact Or.inr h
+        · rintro (h | h)
+          · exact Or.inl h
+          · by_cases hx : x ∈ a
+            · exact Or.inl hx
+            · exact Or.inr ⟨h, by simpa using hx⟩
+      by_cases h : k.addDedup = true
+      · rw [if_pos h, mem_dedup]; exact this
+      · rw [if_neg h]; exact this
+
+
+/-- a wildcard operand makes the sum the wildcard -/
+theorem modesAdd_wild (k : ModeKind) (a b : Modes) (h : a.isWild = true ∨ b.isWild = true) :
+    modesAdd k a b = .ok .wild := by
+  rcases h with h | h <;> simp [modesAdd, h]
+
+/-- `Cls.__sub__` on explicit mode tuples is set difference, with the class default
+    re-inserted when the difference is empty. -/
+theorem modesSub_names (k : ModeKind) (a b : List String) :
+    ∃ r, modesSub k (.names a) (.names b) = .ok (.names r) ∧
+      ((∃ x, x ∈ a ∧ x ∉ b) → ∀ x, x ∈ r ↔ x ∈ a ∧ x ∉ b) ∧
+      ((¬ ∃ x, x ∈ a ∧ x ∉ b) → r = [k.subDefault]) := by
+  have hmem : ∀ x, x ∈ a.filter (fun y => !b.contains y) ↔ x ∈ a ∧ x ∉ b := by
+    intro x; simp [List.mem_filter]
+  by_cases ha : a.isEmpty = true
+  · have : a = [] := by simpa using ha
+    subst this
+    refine ⟨[k.subDefault], ?_, ?_, fun _ => rfl⟩
+    · by_cases h : k.subDedup = true <;>
+        simp [modesSub, Modes.isWild, Modes.iter, filterNotIn, bind, Except.bind, pure, Except.pure, h, dedup]
+    · rintro ⟨x, hx, _⟩; cases hx
+  · let d := a.filter (fun y => !b.contains y)
+    let d' := if k.subDedup then dedup d else d
+    have hd' : ∀ x, x ∈ d' ↔ x ∈ a ∧ x ∉ b := by
+      intro x
+      show x ∈ (if k.subDedup then dedup d else d) ↔ _
+      by_cases h : k.subDedup = true
+      · rw [if_pos h, mem_dedup]; exact hmem x
+      · rw [if_neg h]; exact hmem x
+    refine ⟨if d'.isEmpty then [k.subDefault] else d', ?_, ?_, ?_⟩
+    · simp [modesSub, Modes.isWild, Modes.iter, filterNotIn, ha, bind, Except.bind, pure, Except.pure, d', d]
+    · rintro ⟨x, hx⟩
+      have : d'.isEmpty = false := by
+        cases hd : d' with
+        | nil => have := (hd' x).mpr hx; rw [hd] at this; cases this
+        | cons _ _ => rfl
+      intro y; rw [this]; simpa using hd' y
+    · intro hno
+      have : d'.isEmpty = true := by
+        cases hd : d' with
+        | nil => rfl
+        | cons y ys =>
+          exfalso; apply hno
+          exact ⟨y, (hd' y).mp (by rw [hd]; exact List.mem_cons_self)⟩
+      rw [this]; rfl
+
+/-- `Cls.__eq__` on explicit mode tuples is set equality. -/
+theorem modesEq_names (a b : List String) :
+    ∃ r, modesEq (.names a) (.names b) = .ok r ∧ (r = true ↔ ∀ x, x ∈ a ↔ x ∈ b) := by
+  refine ⟨setEq a b, rfl, ?_⟩
+  simp only [setEq, Bool.and_eq_true, List.all_eq_true, List.contains_iff_mem]
+  constructor
+  · rintro ⟨h1, h2⟩ x; exact ⟨h1 x, h2 x⟩
+  · intro h; exact ⟨fun x hx => (h x).mp hx, fun x hx => (h x).mpr hx⟩
+
+
+/-! ### stepwise search -/
+
+theorem snoc_ind {α : Type} {P : List α → Prop} (hnil : P []) (hsnoc : ∀ l a, P l → P (l ++ [a])) :
+    ∀ l, P l := by
+  intro l
+  have : ∀ r : List α, P r.reverse := by
+    intro r
+    induction r with
+    | nil => exact hnil
+    | cons a r ih => rw [List.reverse_cons]; exact hsnoc _ _ ih
+  simpa using this l.reverse
+
+theorem allowedFrom_snoc (funcs prev q : List Key) (f : Key) :
+    allowedFrom funcs prev (q ++ [f]) =
+      (allowedFrom funcs prev q && funcs.contains f && isAllowed funcs f (prev ++ q)) := by
+  induction q generalizing prev with
+  | nil => simp [allowedFrom, Bool.and_comm]
+  | cons g q ih =>
+    simp only [List.cons_append, allowedFrom, ih, List.append_assoc, List.nil_append]
+    simp only [Bool.and_assoc]
+
+theorem allowedPath_snoc (funcs q : List Key) (f : Key) :
+    allowedPath funcs (q ++ [f]) = true ↔
+      allowedPath funcs q = true ∧ f ∈ funcs ∧ isAllowed funcs f q = true := by
+  unfold allowedPath
+  rw [allowedFrom_snoc]
+  simp [Bool.and_eq_true, and_assoc]
+
+theorem mem_extendPath (funcs q p : List Key) :
+    p ∈ extendPath funcs q ↔ ∃ f, f ∈ funcs ∧ isAllowed funcs f q = true ∧ p = q ++ [f] := by
+  simp only [extendPath, List.mem_map, List.mem_filter]
+  constructor
+  · rintro ⟨f, ⟨h1, h2⟩, rfl⟩; exact ⟨f, h1, h2, rfl⟩
+  · rintro ⟨f, h1, h2, rfl⟩; exact ⟨f, ⟨h1, h2⟩, rfl⟩
+
+theorem mem_layer (funcs : List Key) (k : Nat) (p : List Key) :
+    p ∈ layer funcs k ↔ allowedPath funcs p = true ∧ p.length = k := by
+  induction k generalizing p with
+  | zero =>
+    simp only [layer, List.mem_singleton]
+    constructor
+    · rintro rfl; exact ⟨rfl, rfl⟩
+    · rintro ⟨_, h⟩; exact List.length_eq_zero_iff.mp h
+  | succ k ih =>
+    simp only [layer, nextLayer, List.mem_flatMap, mem_extendPath]
+    constructor
+    · rintro ⟨q, hq, f, hf, ha, rfl⟩
+      obtain ⟨h1, h2⟩ := (ih q).mp hq
+      exact ⟨(allowedPath_snoc funcs q f).mpr ⟨h1, hf, ha⟩, by simp [h2]⟩
+    · rintro ⟨hp, hlen⟩
+      rcases List.eq_nil_or_concat p with rfl | ⟨q, f, rfl⟩
+      · simp at hlen
+      · rw [List.concat_eq_append] at hp hlen ⊢
+        obtain ⟨h1, hf, ha⟩ := (allowedPath_snoc funcs q f).mp hp
+        refine ⟨q, (ih q).mpr ⟨h1, by simpa using hlen⟩, f, hf, ha, rfl⟩
+
+/-- `_is_allowed` spelled out -/
+theorem isAllowed_iff (funcs : List Key) (f : Key) (q : List Key) :
+    isAllowed funcs f q = true ↔
+      f ∉ q ∧
+        if f.isPeripheral = true then isAllowedPeripheral funcs f q = true
+        else
+          f ∉ Gen.neverAllowed ∧ (∀ x, x ∈ q → ¬ x.kind = f.kind) ∧
+            (q = [] ∨ ∀ a b, (a, b) ∈ Gen.notSupportedCombo → ∀ x, x ∈ q → comboHit (a, b) f x = false) := by
+  simp [isAllowed]
+
+theorem isAllowed_not_mem (funcs : List Key) (f : Key) (q : List Key) (h : isAllowed funcs f q = true) : f ∉ q :=
+  ((isAllowed_iff funcs f q).mp h).1
+
+theorem allowedPath_nodup_subset (funcs : List Key) : ∀ p, allowedPath funcs p = true → p.Nodup ∧ p ⊆ funcs := by
+  apply snoc_ind
+  · intro _; exact ⟨List.nodup_nil, by simp⟩
+  · intro q f ih h
+    obtain ⟨h1, hf, ha⟩ := (allowedPath_snoc funcs q f).mp h
+    obtain ⟨hn, hs⟩ := ih h1
+    refine ⟨?_, ?_⟩
+    · rw [List.nodup_append]
+      refine ⟨hn, by simp, ?_⟩
+      intro a ha' b hb hab
+      simp at hb; subst hb; subst hab
+      exact isAllowed_not_mem funcs a q ha ha'
+    · intro x hx
+      rcases List.mem_append.mp hx with hx | hx
+      · exact hs hx
+      · simp at hx; subst hx; exact hf
+
+theorem allowedPath_length_le (funcs p : List Key) (h : allowedPath funcs p = true) : p.length ≤ funcs.length := by
+  obtain ⟨hn, hs⟩ := allowedPath_nodup_subset funcs p h
+  exact hn.length_le_of_subset hs
+
+theorem layer_nil_succ (funcs : List Key) (k : Nat) (h : layer funcs k = []) : layer funcs (k + 1) = [] := by
+  simp [layer, nextLayer, h]
+
+theorem layer_nil_add (funcs : List Key) (k j : Nat) (h : layer funcs k = []) : layer funcs (k + j) = [] := by
+  induction j with
+  | zero => exact h
+  | succ j ih => exact layer_nil_succ funcs (k + j) ih
+
+theorem mem_stepwiseAux (funcs : List Key) (fuel k : Nat) (p : List Key) :
+    p ∈ stepwiseAux funcs fuel (layer funcs k) ↔ ∃ j, 1 ≤ j ∧ j ≤ fuel ∧ p ∈ layer funcs (k + j) := by
+  induction fuel generalizing k with
+  | zero =>
+    simp only [stepwiseAux, List.not_mem_nil, false_iff]
+    rintro ⟨j, h1, h2, _⟩; omega
+  | succ fuel ih =>
+    simp only [stepwiseAux]
+    have hnl : nextLayer funcs (layer funcs k) = layer funcs (k + 1) := rfl
+    rw [hnl]
+    by_cases he : (layer funcs (k + 1)).isEmpty = true
+    · rw [if_pos he]
+      have he' : layer funcs (k + 1) = [] := by simpa using he
+      simp only [List.not_mem_nil, false_iff]
+      rintro ⟨j, h1, _, hp⟩
+      have : layer funcs (k + 1 + (j - 1)) = [] := layer_nil_add funcs (k + 1) (j - 1) he'
+      have e : k + 1 + (j - 1) = k + j := by omega
+      rw [e] at this
+      rw [this] at hp; cases hp
+    · rw [if_neg he, List.mem_append, ih (k + 1)]
+      constructor
+      · rintro (h | ⟨j, h1, h2, hp⟩)
+        · exact ⟨1, by omega, by omega, h⟩
+        · exact ⟨j + 1, by omega, by omega, by rw [← Nat.add_assoc]; rw [Nat.add_right_comm]; exact hp⟩
+      · rintro ⟨j, h1, h2, hp⟩
+        by_cases hj : j = 1
+        · subst hj; exact Or.inl hp
+        · refine Or.inr ⟨j - 1, by omega, by omega, ?_⟩
+          have e : k + 1 + (j - 1) = k + j := by omega
+          rw [e]; exact hp
+
+/-- `exhaustive_stepwise` creates exactly the non-empty paths all of whose steps are allowed. -/
+theorem mem_exhaustiveStepwise (funcs p : List Key) :
+    p ∈ exhaustiveStepwise funcs ↔ allowedPath funcs p = true ∧ p ≠ [] := by
+  unfold exhaustiveStepwise
+  have h0 : ([[]] : List (List Key)) = layer funcs 0 := rfl
+  rw [h0, mem_stepwiseAux]
+  constructor
+  · rintro ⟨j, h1, _, hp⟩
+    obtain ⟨ha, hl⟩ := (mem_layer funcs _ p).mp hp
+    refine ⟨ha, ?_⟩
+    rintro rfl; simp at hl; omega
+  · rintro ⟨ha, hne⟩
+    have hle := allowedPath_length_le funcs p ha
+    have hpos : 1 ≤ p.length := by
+      cases p with
+      | nil => exact absurd rfl hne
+      | cons _ _ => simp
+    exact ⟨p.length, hpos, by omega, (mem_layer funcs _ p).mpr ⟨ha, by simp⟩⟩
+
+/-- more fuel changes nothing: the `while True` loop has ended after `len(mfl_funcs) + 1` sweeps -/
+theorem mem_stepwiseAux_fuel (funcs : List Key) (fuel : Nat) (hf : funcs.length + 1 ≤ fuel) (p : List Key) :
+    p ∈ stepwiseAux funcs fuel [[]] ↔ p ∈ exhaustiveStepwise funcs := by
+  rw [mem_exhaustiveStepwise]
+  have h0 : ([[]] : List (List Key)) = layer funcs 0 := rfl
+  rw [h0, mem_stepwiseAux]
+  constructor
+  · rintro ⟨j, h1, _, hp⟩
+    obtain ⟨ha, hl⟩ := (mem_layer funcs _ p).mp hp
+    refine ⟨ha, ?_⟩
+    rintro rfl; simp at hl; omega
+  · rintro ⟨ha, hne⟩
+    have hle := allowedPath_length_le funcs p ha
+    have hpos : 1 ≤ p.length := by
+      cases p with
+      | nil => exact absurd rfl hne
+      | cons _ _ => simp
+    exact ⟨p.length, hpos, by omega, (mem_layer funcs _ p).mpr ⟨ha, by simp⟩⟩
+
+/-! ### the documented path rules hold on every allowed path -/
+
+theorem isPeripheral_iff (f : Key) : f.isPeripheral = true ↔ f.kind = "PERIPHERALS" := by
+  simp [Key.isPeripheral]
+
+theorem allowed_one_per_category' (funcs : List Key) :
+    ∀ p, allowedPath funcs p = true →
+      p.Pairwise (fun g f => f.isPeripheral = false → ¬ g.kind = f.kind) := by
+  apply snoc_ind
+  · intro _; exact List.Pairwise.nil
+  · intro q f ih h
+    obtain ⟨h1, _, ha⟩ := (allowedPath_snoc funcs q f).mp h
+    rw [List.pairwise_append]
+    refine ⟨ih h1, by simp, ?_⟩
+    intro g hg f' hf' hnp
+    simp at hf'; subst hf'
+    have := (isAllowed_iff funcs f' q).mp ha
+    simp only [hnp, Bool.false_eq_true, if_false] at this
+    exact this.2.2.1 g hg
+
+theorem comboHit_symm (c : List String × List String) (f g : Key) : comboHit c f g = comboHit c g f := by
+  simp only [comboHit]
+  rw [Bool.or_comm]
+  congr 1 <;> rw [Bool.and_comm]
+
+theorem isPrefixOf_kind (l : List String) (f : Key) (hl : l ≠ []) (h : l.isPrefixOf f = true) :
+    f.kind = l.headD "" := by
+  cases l with
+  | nil => exact absurd rfl hl
+  | cons a l =>
+    cases f with
+    | nil => simp [List.isPrefixOf] at h
+    | cons b f =>
+      simp only [List.isPrefixOf, Bool.and_eq_true, beq_iff_eq] at h
+      simp [Key.kind, h.1]
+
+/-- the exclusion table and the literal early exits never mention PERIPHERALS
+    (re-checked against the regenerated table on every run) -/
+theorem tables_have_no_peripherals :
+    (∀ c, c ∈ Gen.notSupportedCombo →
+      c.1 ≠ [] ∧ c.1.headD "" ≠ "PERIPHERALS" ∧ c.2 ≠ [] ∧ c.2.headD "" ≠ "PERIPHERALS") ∧
+    (∀ k, k ∈ Gen.neverAllowed → Key.isPeripheral k = false) := by
+  decide
+
+theorem comboHit_peripheral (c : List String × List String) (hc : c ∈ Gen.notSupportedCombo) (f g : Key)
+    (hf : f.isPeripheral = true) : comboHit c f g = false := by
+  obtain ⟨h1, h2, h3, h4⟩ := tables_have_no_peripherals.1 c hc
+  have hk := (isPeripheral_iff f).mp hf
+  have e1 : c.1.isPrefixOf f = false := by
+    cases h : c.1.isPrefixOf f with
+    | false => rfl
+    | true => exact absurd ((isPrefixOf_kind c.1 f h1 h).symm.trans hk) h2
+  have e2 : c.2.isPrefixOf f = false := by
+    cases h : c.2.isPrefixOf f with
+    | false => rfl
+    | true => exact absurd ((isPrefixOf_kind c.2 f h3 h).symm.trans hk) h4
+  simp [comboHit, e1, e2]
+
+theorem allowed_excluded_pairs' (funcs : List Key) :
+    ∀ p, allowedPath funcs p = true →
+      p.Pairwise (fun g f => ∀ c, c ∈ Gen.notSupportedCombo → comboHit c f g = false) := by
+  apply snoc_ind
+  · intro _; exact List.Pairwise.nil
+  · intro q f ih h
+    obtain ⟨h1, _, ha⟩ := (allowedPath_snoc funcs q f).mp h
+    rw [List.pairwise_append]
+    refine ⟨ih h1, by simp, ?_⟩
+    intro g hg f' hf' c hc
+    simp at hf'; subst hf'
+    cases hp : Key.isPeripheral f' with
+    | true => exact comboHit_peripheral c hc f' g hp
+    | false =>
+      have := (isAllowed_iff funcs f' q).mp ha
+      simp only [hp, Bool.false_eq_true, if_false] at this
+      rcases this.2.2.2 with hq | hq
+      · subst hq; cases hg
+      · exact hq c.1 c.2 hc g hg
+
+theorem allowed_never' (funcs : List Key) :
+    ∀ p, allowedPath funcs p = true → ∀ f, f ∈ p → f ∉ Gen.neverAllowed := by
+  apply snoc_ind
+  · intro _ f hf; cases hf
+  · intro q f ih h g hg
+    obtain ⟨h1, _, ha⟩ := (allowedPath_snoc funcs q f).mp h
+    rcases List.mem_append.mp hg with hg | hg
+    · exact ih h1 g hg
+    · simp at hg; subst hg
+      cases hp : Key.isPeripheral g with
+      | true =>
+        intro hm
+        have := tables_have_no_peripherals.2 g hm
+        rw [hp] at this; cases this
+      | false =>
+        have := (isAllowed_iff funcs g q).mp ha
+        simp only [hp, Bool.false_eq_true, if_false] at this
+        exact this.2.1
+
+theorem first_peripheral_is_min' (funcs q : List Key) (f : Key) (h : allowedPath funcs (q ++ [f]) = true)
+    (hf : f.isPeripheral = true) (hq : ∀ g, g ∈ q → g.isPeripheral = false) :
+    f.arg0 = listMin (periCounts funcs) := by
+  obtain ⟨_, _, ha⟩ := (allowedPath_snoc funcs q f).mp h
+  have := (isAllowed_iff funcs f q).mp ha
+  simp only [hf, if_true] at this
+  have hnil : q.filter Key.isPeripheral = [] := by
+    rw [List.filter_eq_nil_iff]; intro g hg; simp [hq g hg]
+  have h2 := this.2
+  simp only [isAllowedPeripheral, hnil, List.isEmpty_nil, if_true, beq_iff_eq] at h2
+  exact h2
+
+/-! ### every path once -/
+
+theorem extendPath_nodup (funcs q : List Key) (hf : funcs.Nodup) : (extendPath funcs q).Nodup := by
+  unfold extendPath
+  refine List.Pairwise.map _ ?_ (List.Nodup.sublist List.filter_sublist hf)
+  intro a b hab h
+  exact hab (by simpa using h)
+
+theorem layer_nodup (funcs : List Key) (hf : funcs.Nodup) : ∀ k, (layer funcs k).Nodup := by
+  intro k
+  induction k with
+  | zero => simp [layer]
+  | succ k ih =>
+    show List.Pairwise (· ≠ ·) _
+    simp only [layer, nextLayer, List.pairwise_flatMap]
+    refine ⟨fun q _ => extendPath_nodup funcs q hf, ?_⟩
+    refine List.Pairwise.imp ?_ ih
+    intro q1 q2 hne x hx y hy hxy
+    obtain ⟨f1, _, _, rfl⟩ := (mem_extendPath funcs q1 x).mp hx
+    obtain ⟨f2, _, _, rfl⟩ := (mem_extendPath funcs q2 y).mp hy
+    exact hne (List.append_inj' hxy rfl).1
+
+theorem stepwiseAux_nodup (funcs : List Key) (hf : funcs.Nodup) (fuel k : Nat) :
+    (stepwiseAux funcs fuel (layer funcs k)).Nodup := by
+  induction fuel generalizing k with
+  | zero => simp [stepwiseAux]
+  | succ fuel ih =>
+    simp only [stepwiseAux]
+    have hnl : nextLayer funcs (layer funcs k) = layer funcs (k + 1) := rfl
+    rw [hnl]
+    by_cases he : (layer funcs (k + 1)).isEmpty = true
+    · rw [if_pos he]; exact List.nodup_nil
+    · rw [if_neg he, List.nodup_append]
+      refine ⟨layer_nodup funcs hf (k + 1), ih (k + 1), ?_⟩
+      intro a ha b hb hab
+      subst hab
+      obtain ⟨j, h1, _, hp⟩ := (mem_stepwiseAux funcs fuel (k + 1) a).mp hb
+      have l1 := ((mem_layer funcs _ a).mp ha).2
+      have l2 := ((mem_layer funcs _ a).mp hp).2
+      omega
+
+/-! ### itertools.product -/
+
+theorem mem_product {β : Type} (gs : List (List β)) (t : List β) :
+    t ∈ product gs ↔ pickOne t gs := by
+  induction gs generalizing t with
+  | nil =>
+    simp only [product, List.mem_singleton]
+    cases t <;> simp [pickOne]
+  | cons g gs ih =>
+    simp only [product, List.mem_flatMap, List.mem_map]
+    cases t with
+    | nil => simp [pickOne]
+    | cons a t =>
+      simp only [pickOne, ← ih]
+      constructor
+      · rintro ⟨a', ha, t', ht', h⟩
+        cases h; exact ⟨ha, ht'⟩
+      · rintro ⟨ha, ht⟩; exact ⟨a, ha, t, ht, rfl⟩
+
+theorem product_nodup {β : Type} (gs : List (List β)) (h : ∀ g, g ∈ gs → g.Nodup) : (product gs).Nodup := by
+  induction gs with
+  | nil => simp [product]
+  | cons g gs ih =>
+    show List.Pairwise (· ≠ ·) _
+    simp only [product, List.pairwise_flatMap]
+    have hg := h g List.mem_cons_self
+    have hgs := ih (fun g' hg' => h g' (List.mem_cons_of_mem _ hg'))
+    refine ⟨fun a _ => List.Pairwise.map _ (fun x y hxy e => hxy (List.tail_eq_of_cons_eq e)) hgs, ?_⟩
+    refine List.Pairwise.imp ?_ hg
+    intro a b hab x hx y hy hxy
+    obtain ⟨_, _, rfl⟩ := List.mem_map.mp hx
+    obtain ⟨_, _, rfl⟩ := List.mem_map.mp hy
+    exact hab (List.head_eq_of_cons_eq hxy)
+
+theorem product_length {β : Type} (gs : List (List β)) :
+    (product gs).length = (gs.map List.length).foldr (· * ·) 1 := by
+  induction gs with
+  | nil => simp [product]
+  | cons g gs ih =>
+    simp only [product, List.length_flatMap, List.length_map, ih, List.map_cons, List.foldr_cons]
+    generalize (List.foldr (· * ·) 1 (gs.map List.length)) = m
+    induction g with
+    | nil => simp
+    | cons a g ihg => simp [ihg, Nat.add_mul]; omega
+
+
 end Pharmpy.C18
